@@ -109,6 +109,34 @@ def _stored_keys(fn, reads):
     return stored
 
 
+def _is_bool_field(cls, e):
+    """``self.f`` where some __init__ of the class or its bases sets ``self.f`` to a bool constant"""
+    if not (isinstance(e, ast.Attribute) and isinstance(e.value, ast.Name) and e.value.id == 'self'):
+        return False
+    for k in cls.mro():
+        init = k.methods.get('__init__')
+        if init is None:
+            continue
+        for n in ast.walk(init):
+            if isinstance(n, ast.Assign) and any(isinstance(t, ast.Attribute) and t.attr == e.attr and isinstance(t.value, ast.Name) and
+                                                 t.value.id == 'self' for t in n.targets):
+                if isinstance(n.value, ast.Constant) and isinstance(n.value.value, bool):
+                    return True
+                if isinstance(n.value, ast.Name):
+                    a = init.args
+                    pos = a.posonlyargs + a.args
+                    dflt = dict(zip([x.arg for x in pos[len(pos) - len(a.defaults):]], a.defaults))
+                    dflt.update({x.arg: d for x, d in zip(a.kwonlyargs, a.kw_defaults) if d is not None})
+                    for x in pos + a.kwonlyargs:
+                        if x.arg == n.value.id:
+                            if x.annotation is not None and ast.unparse(x.annotation) == 'bool':
+                                return True
+                            d = dflt.get(x.arg)
+                            if isinstance(d, ast.Constant) and isinstance(d.value, bool):
+                                return True
+    return False
+
+
 def check_dict_codecs(prog, rep, rule):
     for spec in DICT_CODECS:
         cls = prog.cls(spec)
@@ -159,6 +187,35 @@ def check_dict_codecs(prog, rep, rule):
                 is_str = is_str or (isinstance(val, ast.Constant) and isinstance(val.value, str)) or \
                     isinstance(val, ast.JoinedStr)
                 rep.instance(rule, f'{cls.name}: key {k!r} reader expects string tokens, writer emits {norm(val, 50)}')
+                # a flag written as str(<bool>) is the text 'True' or 'False': the reader's token table must map exactly the first
+                # one back to a set flag
+                if is_str and isinstance(val, ast.Call) and len(val.args) == 1 and _is_bool_field(cls, val.args[0]):
+                    for n in nodes:
+                        p = getattr(n, '_parent', None)
+                        if not (isinstance(p, ast.Compare) and p.left is n and len(p.ops) == 1 and isinstance(p.ops[0], (ast.In, ast.Eq, ast.NotIn, ast.NotEq))):
+                            continue
+                        comp = p.comparators[0]
+                        toks = {c.value for c in ast.walk(comp) if isinstance(c, ast.Constant) and isinstance(c.value, str)}
+                        positive = isinstance(p.ops[0], (ast.In, ast.Eq))
+                        gp = getattr(p, '_parent', None)
+                        if isinstance(gp, ast.UnaryOp) and isinstance(gp.op, ast.Not):
+                            positive = not positive
+                            gp = getattr(gp, '_parent', None)
+                        if isinstance(gp, ast.IfExp) and isinstance(gp.body, ast.Constant) and isinstance(gp.orelse, ast.Constant) and \
+                                isinstance(gp.body.value, bool) and isinstance(gp.orelse.value, bool):
+                            if gp.body.value is False and gp.orelse.value is True:
+                                positive = not positive
+                            elif not (gp.body.value is True and gp.orelse.value is False):
+                                continue
+                        elif not isinstance(gp, (ast.Assign, ast.keyword, ast.Call, ast.Return)):
+                            continue
+                        set_tok, unset_tok = ('True', 'False') if positive else ('False', 'True')
+                        rep.instance(rule, f'{cls.name}: flag {k!r} written as str(bool), tokens read as {"set" if positive else "unset"}: {sorted(toks)}')
+                        if set_tok not in toks or unset_tok in toks:
+                            rep.violation(rule, loc(cls.module, p), f'{cls.name}.from_json', f'flag {k!r} decoded by {norm(p, 60)}',
+                                          f'{cls.name}.to_json writes the flag {k!r} as {norm(val, 40)}, i.e. the text "True" or "False"; '
+                                          f'from_json maps {sorted(toks)} to {"set" if positive else "unset"}, which does not send "True" to '
+                                          f'set and "False" to unset: a value decoded from its own encoding has the flag changed')
                 if not is_str:
                     rep.violation(rule, loc(cls.module, w[k]), f'{cls.name}.to_json',
                                   f'key {k!r} written as {norm(val, 50)} but read as string token',
